@@ -242,11 +242,17 @@ def run_moving(case):
                 si = np.log(ei[0][1] / ei[-1][1]) / np.log(ei[0][0] / ei[-1][0])
                 sr = np.log(er[0][1] / er[-1][1]) / np.log(er[0][0] / er[-1][0])
                 stats['min_order_margin_' + nm] = float(si - sr)
-                if si < sr - 0.7:
+                # gyro: same order as the rate readings at least.  accel: with position AND velocity supplied the
+                # interpolant's velocity is exact at the knots, so the inertial velocity increment is exact and only
+                # the rotation of the frame inside the interval sees the O(dt^2) acceleration error: one order
+                # better than the rate readings (measured 0.89..1.1 over the lattice); an algebra slip in the
+                # closed-form integrals (O(dt^2) per unit time) removes exactly this order.
+                need = -0.7 if nm == 'gyro' else 0.4
+                if si < sr + need:
                     viol.append(dict(sig='c03-increment-order:' + nm,
                                      msg='%s increments converge with order %.2f per unit time, the rate readings of '
-                                         'the same motion with order %.2f: the integrals are less accurate than the '
-                                         'interpolation they integrate (errors/dt %s vs %s)'
+                                         'the same motion with order %.2f: the integrals are less accurate than exact '
+                                         'integration of the interpolant allows (errors/dt %s vs %s)'
                                          % (nm, si, sr, ['%.2e' % x[1] for x in ei], ['%.2e' % x[1] for x in er])))
     for q in E:
         if case.get('long') and q.startswith('inv_'):
